@@ -16,8 +16,8 @@ REPO = os.environ.get("VERIF_REPO", "/repo")
 # process-wide default built from the environment, so the environment is the only uniform way.
 os.environ.setdefault("STABILIZE_MAX_STAGE_WAIT_RETRIES", "3")
 os.environ.setdefault("STABILIZE_HANDLER_RETRY_DELAY_S", "3600")
-os.environ.setdefault("STABILIZE_TASK_BACKOFF_MIN_MS", "3600000")
-os.environ.setdefault("STABILIZE_TASK_BACKOFF_MAX_MS", "7200000")
+os.environ.setdefault("STABILIZE_TASK_BACKOFF_MIN_MS", "600000")     # task back-off < handler retry delay,
+os.environ.setdefault("STABILIZE_TASK_BACKOFF_MAX_MS", "1200000")    # as with the defaults (1 s < 15 s)
 os.environ.setdefault("STABILIZE_HANDLER_MIN_DELAY_MS", "1")
 os.environ.setdefault("STABILIZE_HANDLER_MAX_DELAY_MS", "2")
 os.environ.setdefault("STABILIZE_ERROR_MIN_DELAY_MS", "1")
